@@ -95,6 +95,7 @@ type ctxT struct {
 	txSpent  string
 	txPend   string
 	rawTx    string
+	rawPend  string // a transaction spending output 0 of a pending transaction (or of an unknown one)
 	export   string
 }
 
@@ -131,7 +132,7 @@ func (c *ctxT) domain(name string, t reflect.Type) []reflect.Value {
 		case strings.Contains(n, "address") || strings.Contains(n, "holder"):
 			return vs(a0, a1, b0, st0, c.stranger, "ms1qqinvalid", "", long)
 		case strings.Contains(n, "rawtx") || n == "hex":
-			return vs(c.rawTx, c.rawTx[:len(c.rawTx)/2], "", "abc", "zz", strings.Repeat("00", 40))
+			return vs(c.rawTx, c.rawPend, c.rawTx[:len(c.rawTx)/2], "", "abc", "zz", strings.Repeat("00", 40))
 		case strings.Contains(n, "amount") || strings.Contains(n, "fee") || strings.Contains(n, "value"):
 			if strings.Contains(n, "fee") {
 				return vs("0.001", "0", "1", "0.00000001", "206438400", "-1", "abc", "", "1.123456789", "1.100000000", "2.0000000000", "1.", ".5", "1e3", " 1", "+1", "0x10", "1,5", "１")
@@ -410,6 +411,12 @@ func (m *Model) Run(hist []string) *proto.Result {
 	raw.AddTxOut(&wire.TxOut{Value: 1000, PkScript: w.SPk})
 	rb, _ := raw.Bytes(wire.Packet)
 	c.rawTx = hex.EncodeToString(rb)
+	rp := wire.NewMsgTx()
+	hp, _ := wire.NewHashFromStr(c.txPend)
+	rp.AddTxIn(wire.NewTxIn(wire.NewOutPoint(hp, 0), nil))
+	rp.AddTxOut(&wire.TxOut{Value: 1000, PkScript: w.SPk})
+	rpb, _ := rp.Bytes(wire.Packet)
+	c.rawPend = hex.EncodeToString(rpb)
 	c.export = "{}"
 	if j, err := w.I.W.ExportWallet(w.Wallets["A"].ID, world.PassA); err == nil {
 		c.export = j
